@@ -43,10 +43,30 @@ def leaf_texts(vtexts, alt):
     return out
 
 
+def boundary_shapes():
+    """structured catalogue around the shortened renderings: adjacent release series with every inclusivity combination and every
+    mix of segment counts / trailing zeros / epochs, as comma sets and as `||` unions"""
+    out = []
+    pairs = [("1.2", "1.3"), ("1.2", "1.3.0"), ("1.2.0", "1.3"), ("1.2.0", "1.3.0"), ("1.2", "1.2.1.0"), ("1", "2"), ("1", "2.0"), ("1.0", "2"), ("1.0", "2.0.0"),
+             ("3.6.0", "3.7.0"), ("3.6", "3.7.0"), ("1!1.2", "1!1.3.0"), ("1.2.3", "1.3"), ("1.2.3", "1.3.0"), ("0", "1"), ("1.9", "1.10"), ("1.9.0", "1.10.0"),
+             ("2.0", "3.0"), ("2", "3.0.0"), ("1.2", "1.4"), ("1.2.0", "1.2.1"), ("1.2.0", "1.2.1.0")]
+    for a, b2 in pairs:
+        for lo in (">=", ">"):
+            for hi in ("<", "<="):
+                out.append(f"{lo}{a},{hi}{b2}")
+        for hi in ("<", "<="):
+            for lo in (">=", ">"):
+                out.append(f"{hi}{a}||{lo}{b2}")
+        out.append(f"<{a}||>={b2}||=={a}")
+    out += [">=2,<1||>3,<3", "<empty>||<empty>", "<empty>||>=1", ">=1||<empty>", "==1.0,==2.0||<1!0,>=1!1.dev0", ">=2,<1", ">=2,<1||>=3", "<1||<empty>||>2",
+            "==1.0||==1.0", "!=1.0||==1.0", "<1||>=1"]
+    return out
+
+
 def run(tier="quick", seed=0, arg=None):
     rng = Rng(seed)
     vtexts, alt = version_texts(tier)
-    leaves = leaf_texts(vtexts, alt)
+    leaves = leaf_texts(vtexts, alt) + boundary_shapes()
     fails, evals, distinct, samples = [], 0, set(), []
     probe = VERSIONS + [v for v in FINAL_RELEASES if v not in VERSIONS]
 
